@@ -7,7 +7,7 @@ export GOFLAGS=-mod=mod GOPROXY=off GOSUMDB=off GOTOOLCHAIN=local
 cd $W || exit 2
 PKG=./$(dirname $DEMO)
 [ -f patch.diff ] || { echo "no patch.diff"; exit 2; }
-mkdir -p /verif/seeded/$ID
+mkdir -p /verif/seeded/$ID /tmp/wt
 # new library files belong to the patch as well
 for nf in $(git ls-files --others --exclude-standard | grep -v "demo_test.go\|^patch.diff$\|^meta.json$\|\.bak$"); do git add -N "$nf"; done
 git diff -- . ":!$DEMO" ':!patch.diff' ':!meta.json' > /verif/seeded/$ID/patch.diff
